@@ -112,6 +112,8 @@ func ruleC11(r *Report) {
 	safely(r, func() { checkPadding(r, a, sc, "C11.padding", false) })
 	safely(r, func() { checkErrDrop(r, a, sc, fns, "C11.errdrop") })
 	safely(r, func() { checkDescent(r, p, sc, "C11.descent") })
+	r.Rule("C11.hash-linked", "every crypto.Hash identifier that can reach the receiver of (crypto.Hash).New in library code is a constant whose implementing package is linked (New panics otherwise); vacuous while digests are constructed by direct reference", 1)
+	safely(r, func() { checkHashLinked(r, p, "C11.hash-linked") })
 }
 
 // ---------------------------------------------------------------------------------------------
